@@ -133,12 +133,16 @@ m("C02", "proof",
   "the next call verifies the checksum, tells the user, queues exactly one Finished PDU (No error, Data "
   "complete, File retained) and waits; the sender's ACK (Finished) leaves the receiver idle with the file equal "
   "to the source file. The sender's half of the closing handshake: C02_source_eof_acked, C02_source_finished, "
-  "C02_source_completion. Unacknowledged mode with closure requested, the composition of both handlers into "
-  "one run and arbitrary fair pacing are explored (implementation and model), not proved.",
+  "C02_source_completion. C02_unack_closure_delivery: unacknowledged mode with closure (one Finished PDU "
+  "queued). C02_end_to_end_unack: BOTH MODELS COMPOSED — the sender model is called and drained k+2 times, every "
+  "PDU it emits is handed to the receiver model in order: both end idle, destination file byte-identical to the "
+  "source file, no call raised, no fault callback (uses C07, C09 chunk-length independence of the checksum, "
+  "C17). The composed run in acknowledged mode and arbitrary fair pacing are explored (implementation and "
+  "model), not proved.",
   "Lean 4 theorems by induction over tiles + forward simulation of the closing handshake (composition of C07 "
   "and the receiver model) + exploration of pacing",
-  "§6 C02, §11", ["arbitrary fair pacing, unacknowledged mode with closure and the two-handler composition are "
-                  "exploration-level"])
+  "§6 C02, §11", ["arbitrary fair pacing and the composed two-handler run in acknowledged mode are exploration-level "
+                  "(each handler's half of the acknowledged transfer is proved)"])
 m("C03", "other",
   "acknowledged-mode end-to-end sessions with K in 1..3 faults (drop, duplicate, delay/reorder of any PDU in "
   "either direction) and all expiration limits > K; after the faults the link is quiet and timers keep "
